@@ -19,14 +19,14 @@ CLAIMED['C02'] = dict(
     text='Bounded symbolic model checking: the real betting/collection/pots/showdown/push/pull code runs on symbolic stacks, raise amounts and '
          'symbolic hand strengths (a user Hand type whose strength per card set is a z3 integer, optional "no qualifying hand"), so every deal is covered; '
          'what each player receives from each pot and the final payoffs are compared with an oracle written from the statement.',
-    note='evaluator abstracted to any monotone strength function; contributions read from the engine (C01); n<=3 quick, shapes bounded; int chips; concrete deck order')
+    note='evaluator abstracted to any monotone strength function; contributions after an independent rule for the uncalled part of a bet (checked at every bet collection); n<=3 quick, shapes bounded; int chips; concrete deck order')
 CLAIMED['C04'] = dict(
     engine='symex+smt',
     technique='SMT (z3 QF_BV): lookup tables dumped from the running code vs rule oracle over symbolic rank multisets, per-category pair queries; '
               'CrossHair symbolic execution of the real comparison operators and key functions',
     text='For every lookup table the current source builds, unsat answers show: present<=>valid, label==category, category ranges ordered as the rules say, '
          'and rule order<=>index order for all pairs of rank multisets of the type (complete for the class space, e.g. all 7462 standard classes); '
-         'the real Hand.__lt__/__eq__/__hash__ are explored on symbolic indices and the key functions on all 1-2 card sets incl. unknown cards.',
+         'the real Hand.__lt__/__eq__/__hash__ are explored on symbolic indices, the key functions on all 1-2 card sets incl. unknown cards, and every hand class on its argument forms (text, list, one-shot iterators).',
     note='rule oracle per type is mine (transcribed from the rules); card sets only (no duplicate cards); class->cards step beyond 2 cards relies on uniformity of prod()/set() in the number of cards; z3 trusted')
 CLAIMED['C03'] = dict(
     technique=SYMEX + '; history-based betting-rule model as oracle, symbolic amount probe',
@@ -41,7 +41,7 @@ CLAIMED['C05'] = dict(
 CLAIMED['C07'] = dict(
     technique=SYMEX + '; automation membership decided by the solver (11 boolean variables), real code run natively between decisions',
     text='All 2^11 automation subsets per scripted hand: exactly one phase family enabled while live, none after; documented phase order; progress and bounded length; '
-         'no exception from constructor or legal operations. Plus a traced family with a symbolic stack.',
+         'no exception from constructor or legal operations (incl. the winner tabling his hand after a fold-out); a dealing of no cards is not legal. Plus a traced family with a symbolic stack.',
     note='scripted player decisions; concrete chips in the 2^11 family; mechanical steps in documented order with default arguments')
 CLAIMED['C08'] = dict(
     technique=SYMEX + '; symbolic operation arguments at every point of scripted un-automated hands',
@@ -62,7 +62,7 @@ CLAIMED['C19'] = dict(
     engine='symex+smt',
     technique=SYMEX + '; AST->z3 translation of utilities.rake (QF_FP lemma + LIA obligations)',
     text='clean_values forms vs the explicit list (symbolic amounts/keys), constructors from equivalent representations, Card.parse/clean over pinned ranks/suits and all raw '
-         'text of <= 2 characters, constructor rejection <=> documented conditions, divmod/rake parts add up.',
+         'text of <= 2 characters, constructor rejection <=> documented conditions, divmod/rake parts add up; int, Fraction, Decimal and float chips on the grid p/10^e (p<100, e<=2; thorough p<400, e<=3) for clean_values, the constructor and divmod.',
     note='rake lemma A discharged at binary16 only (binary64 assumed: monotone IEEE rounding); text longer than 2 raw characters / 2 cards outside')
 CLAIMED['C12'] = dict(
     technique=SYMEX + '; parametric evaluator, payoffs vs everybody-shows oracle',
@@ -79,7 +79,7 @@ CHOICE = ('bounded symbolic exploration of the real code: every choice (fold bit
 CLAIMED['C06'] = dict(
     technique=CHOICE + '; card-partition monitor after every logged operation',
     text='After every operation of every explored history the six card containers partition the configured deck; reserves are recycled only when the deck is short; '
-         'explicit/unknown cards never duplicate a known card. Covers draw games with exhaustion in later draws and 8-handed stud (52-card exhaustion and board fallback).',
+         'explicit/unknown cards never duplicate a known card (explicit hole cards and boards taken from deck, burn pile and, at exhaustion, the reserve). Covers draw games with exhaustion in later draws and 8-handed stud (52-card exhaustion and board fallback).',
     note='weakest fit of the technique family (discrete state, finite choice spaces); chips and card identities concrete; deck order stub')
 CLAIMED['C10'] = dict(
     technique=CHOICE + '; dealing oracle computed from the Street tuples',
@@ -94,7 +94,7 @@ CLAIMED['C14'] = dict(
 CLAIMED['C11'] = dict(
     technique=SYMEX + '; rule model parameterised by the DOCUMENTED structure; concrete variant table (supporting)',
     text='All 12 variants: symbolic stacks/raise sizes/probe amount against the documented structure (fixed-limit: exactly the fixed size, fifth bet/raise refused also after a short all-in raise; '
-         'no-limit: up to the stack; pot-limit: up to the pot), small/big-bet streets; plus a transcribed table of deck, hand types, streets, opening, cap and PHH codes.',
+         'no-limit: up to the stack; pot-limit: up to the pot), small/big-bet streets, pot-limit after a fold (3 players), cards per street of 11 variants under any split of the dealing operations; plus a transcribed table of deck, hand types, streets, opening, cap and PHH codes.',
     note='documentation table transcribed by hand (harness/c11.py DOC); depth <= 2 quick')
 CLAIMED['C16'] = dict(
     engine='symex+smt',
@@ -104,12 +104,12 @@ CLAIMED['C16'] = dict(
     note='chips concrete (int + one Decimal family); tomllib/TOML 1.0 grammar transcribed; F10 repaired (fix: e2db7c9), its inputs kept as a regression job')
 CLAIMED['C17'] = dict(
     technique=CHOICE + '; oracle from the harness\'s own tally of committed chips',
-    text='FT/NT, n=2..3, all fold/call/raise x size choices for the first decisions, voluntary mucks, every viewer seat: ACPC match states and Pluribus line equal the oracle; '
+    text='FT/NT, n=2..6, all fold/call/raise x size choices for the first decisions, voluntary mucks, partial shows (cash game), flop and hole cards dealt card by card and written uncompressed, every viewer seat: ACPC match states and Pluribus line equal the oracle; '
          'the Pluribus line parses back to a history replaying to the same actions, stacks and line.',
     note='chips/cards concrete; mucks during all-in run-outs excluded (not expressible in the protocol)')
 CLAIMED['C18'] = dict(
     engine='symex+smt',
     technique=SYMEX + '; real calculate_icm executed on z3 Real variables (operator overloading) and decided by z3 nlsat',
-    text='Range notation for all rank pairs/intervals vs an index-based oracle; equities of fully specified deals with symbolic strengths (incl. no-low) vs the engine share rule; '
-         'ICM: non-negative, sums to the prize pool, ordered as chips, for all positive real chips and non-increasing payouts (n<=3, partly n=4).',
+    text='Range notation for all rank pairs/intervals vs an index-based oracle; equities of fully specified deals with symbolic strengths (incl. no-low) vs the engine share rule, and with the real hand types of 10 variants vs what the real engine pays (208 deck orders each); '
+         'ICM: non-negative, sums to the prize pool, ordered as chips, for all positive real chips and non-increasing payouts (n<=3 complete via the cut at chip_percentages, partly n=4).',
     note='sampling paths outside (random stubs); ICM over the reals; some n=3/4 order obligations may be inconclusive (reported)')
